@@ -2,7 +2,7 @@
 ghost invariant 'state != NEUTRAL iff the sub-tree carries a requirement constraint' in the induction steps) +
 bounded backstop (incl. is_valid_expression through generate_possible_content_evaluation_results)."""
 from checks.c04 import AROUND, CALLBACKS
-from checks.common import prove, prove_lemmas, run_bounded
+from checks.common import guarded, list_theory_obligations, prove, prove_lemmas, run_bounded
 from vlib.report import Ctx
 
 LEVEL = "proof"
@@ -22,5 +22,11 @@ def run(ctx: Ctx) -> None:
     prove_lemmas(ctx, "contracts.c04_lemmas", ["step_and", "step_or", "step_xor", "step_then",
                                               "invalid_needs_a_requirement_or_format_key", "canary_or_never_raises"])
     run_bounded(ctx, "C06")
+    # several modal-mark parts: every part is evaluated whatever earlier parts yield (a normal return means no part is
+    # invalid), which rests on gather_if_necessary letting an item's InvalidExpressionError (a BaseException) through
+    prove(ctx, ["ahbicht.expressions.ahb_expression_evaluation:AhbExpressionTransformer._ahb_expression_async",
+                "ahbicht.utility_functions:gather_if_necessary#loop"])
+    prove(ctx, ["ahbicht.utility_functions:gather_if_necessary#body"], kind="B (bounded by list length <= 4, symbolic contents)")
+    list_theory_obligations(ctx)
     from bounded import multipart_invalid
-    multipart_invalid.run(ctx, "C06")
+    guarded(ctx, "C06", lambda: multipart_invalid.run(ctx, "C06"))
